@@ -140,7 +140,7 @@ func cmdCheck(args []string) (code int) {
 			}
 		}
 	}
-	r.Eng = &Engine{prog: prog, frame: BuildFrame(prog)}
+	r.Eng = &Engine{prog: prog, frame: BuildFrame(prog), prop: r.Prop}
 	r.Eng.buildGuards()
 	r.logf("loaded %d packages, frame: %d functions, %d escaping; %v", len(prog.Pkgs), len(r.Eng.frame.nodes), len(r.Eng.frame.esc), time.Since(r.Start))
 	r.Findings, err = LoadFindings(filepath.Join(*out, "known_findings.txt"))
